@@ -21,6 +21,8 @@ def classify(op, R):
         return "iccr:" + R.split(" ")[0]
     if p[0] == "hdr":
         return "hdr:ll%s:prog%s:ari%s:%s" % (p[9], p[7], p[8], R.split(" ")[0])
+    if p[0] == "xcopy":
+        return "xcopy:" + "".join(p[-int(p[2 + 3 * int(p[1])]):])
     if p[0] == "ss":
         return "ss:" + R
     return p[0]
@@ -98,6 +100,16 @@ def gen_ops(rng, tier):
         for c in range(nc):
             f += [rng.choice([1, 1, 2, 2, 3, 4]), rng.choice([1, 1, 2, 2, 3, 4])]
         ops.append("ss %d %d %s" % (nc, jcs, " ".join(map(str, f))))
+    # copy options on a reused transformer
+    for i in range(400 if big else 80):
+        nm = rng.randint(1, 6)
+        ms = []
+        for _ in range(nm):
+            code = rng.choice([0xFE, 0xFE, 0xE1, 0xE2, 0xE2, 0xE5, 0xED, 0xEF])
+            ms.append((code, rng.choice([0, 1, 3, 40, 300]), rng.randrange(1 << 20)))
+        k = rng.randint(1, 5)
+        opts = [rng.randrange(5) for _ in range(k)]
+        ops.append("xcopy %d %s %d %s" % (nm, " ".join("%d %d %d" % m for m in ms), k, " ".join(map(str, opts))))
     # header parameters through TurboJPEG
     for i in range(600 if big else 150):
         ll = rng.random() < .35
